@@ -617,7 +617,19 @@ def mutate_tree(tree, r):
 def text_mutation(text, r):
     """mutations below the tree level: truncation, byte noise, extra documents, anchors/aliases/tags"""
     b = bytearray(text.encode("utf-8"))
-    op = r.choice(["truncate", "truncate_line", "noise_replace", "noise_insert", "random", "second_doc", "doc_markers", "alias", "tag", "tabs", "bom", "nul", "unterminated"])
+    op = r.choice(["truncate", "truncate_line", "noise_replace", "noise_insert", "random", "second_doc", "doc_markers", "alias", "alias_top", "alias_anywhere", "tag", "tabs", "bom", "nul", "unterminated"])
+    if op == "alias_top":
+        # an alias where the parser expects the section key / the whole document / the section value
+        k = r.below(4)
+        if k == 0: return op, ("*" + text.lstrip().replace(":", " :", 1)).encode("utf-8") if text.strip() else b"*x\n"
+        if k == 1: return op, b"*x\n"
+        if k == 2: return op, (text.split(":", 1)[0] + ": *b\n").encode("utf-8")
+        return op, ("&k " + text).encode("utf-8")
+    if op == "alias_anywhere" and b:
+        # some scalar (key or value) anywhere replaced by an alias / preceded by an anchor
+        idx = [i for i in range(len(text)) if text[i] not in " \n-:#" and (i == 0 or text[i - 1] in " \n")]
+        if idx:
+            i = r.choice(idx); return op, (text[:i] + r.choice(["*a ", "&a ", "*", "&"]) + text[i:]).encode("utf-8")
     if op == "truncate" and b: return op, bytes(b[:r.below(len(b))])
     if op == "truncate_line" and b:
         lines = text.split("\n"); k = r.below(len(lines)); return op, ("\n".join(lines[:k]) + "\n").encode("utf-8")
